@@ -20,14 +20,18 @@
          expressions, and the real handlers are PROVED to update their reassembly state as the rules
          prescribe (server handle_data through its staged form data_pre; client tunnel_dns through
          its staged form td_down / td_accept), delivering exactly on "accepted and last flag";
-     (F) raw UDP mode: a data frame decodes to exactly its payload.
+     (F) raw UDP mode: a data frame decodes to exactly its payload;
+     (G) client-to-client forwarding and the server's ring of pending downstream packets: the ring is a
+         bounded FIFO of byte strings (nothing is altered, merged or re-ordered in it), and a completed
+         upstream packet addressed to a busy session enters that session's ring as the sender's own
+         reassembled stream.
    Byte transport of one fragment (hostname codec, DNS encode/decode) is C07/C08/C09.
    C01_partial: the full statement "for all network behaviours" is not proved (and is false without
    the checksum, see (C)); what is missing is a probabilistic argument about Adler-32. *)
 From Coq Require Import List Arith Bool Lia ZArith NArith.
 From RecordUpdate Require Import RecordUpdate.
 From Iodine Require Import Base ProtoUp ProtoUpProofs ProtoDown ProtoDownProofs Server Client ProtoTie
-  ServerAnswerData ClientStages ProtoRefine.
+  ServerAnswerData ClientStages ProtoRefine ServerFrame QueueProofs.
 From Iodine.Generated Require Import SrcConsts.
 Import ListNotations.
 
@@ -202,3 +206,51 @@ Theorem C01_client_upstream_ack_rule :
       let '(st2, out) := send_chunk st in (st2 <| c_ping_soon := 0%N |>, out, false))).
 Proof. exact (conj td_up_idle (conj td_up_mismatch (conj td_up_last td_up_next))). Qed.
 Print Assumptions C01_client_upstream_ack_rule.
+
+(* (G) The per-session ring of pending downstream packets (outpacketq) refines a bounded FIFO: abstraction qabs =
+   the payloads of the filled slots in ring order.  A save on a ring that is not full appends exactly the given
+   bytes (capped at the 64 KiB slot size) at the end and touches neither the packet in flight nor the reassembly
+   buffer; a save on a full ring changes nothing; a get pops the head and makes it the packet in flight, byte for
+   byte, with the next sequence number and fragment 0. *)
+Theorem C01_outqueue_is_fifo :
+  (forall u d, qwf u -> (u_queue_filled u < QLEN)%nat ->
+     let u' := fst (save_to_outpacketq u d) in
+     snd (save_to_outpacketq u d) = true /\ qwf u' /\ qabs u' = qabs u ++ [firstn (N.to_nat 65536) d] /\
+     u_out u' = u_out u /\ u_in u' = u_in u /\ u_queue_next u' = u_queue_next u) /\
+  (forall u d, (QLEN <= u_queue_filled u)%nat -> save_to_outpacketq u d = (u, false)) /\
+  (forall u x xs, qwf u -> qabs u = x :: xs ->
+     let u' := fst (get_from_outpacketq u) in
+     snd (get_from_outpacketq u) = true /\ qwf u' /\ qabs u' = xs /\
+     p_data (u_out u') = firstn (N.to_nat 65536) x /\
+     p_len (u_out u') = N.of_nat (length (firstn (N.to_nat 65536) x)) /\
+     p_offset (u_out u') = 0%N /\ p_sentlen (u_out u') = 0%N /\
+     p_seqno (u_out u') = ((p_seqno (u_out u) + 1) mod 8)%N /\ p_fragment (u_out u') = 0%Z /\
+     u_in u' = u_in u) /\
+  (forall u, u_queue_filled u = O -> get_from_outpacketq u = (u, false)) /\
+  (forall ip, qwf (user_init ip)).
+Proof. exact (conj save_spec (conj save_full (conj get_spec (conj get_empty user_init_qwf)))). Qed.
+Print Assumptions C01_outqueue_is_fifo.
+
+(* (G, continued) client-to-client forwarding into a busy recipient: a completed upstream packet of session i
+   whose destination address belongs to the live DNS-mode session t with a packet still in flight is answered
+   with nothing, and what is appended to t's ring is the reassembled stream of session i itself -- not the
+   recipient's own buffer, not a third session's; t's packet in flight is untouched.  (With the ring full the
+   packet is dropped: C01 allows loss.) *)
+Theorem C01_forward_into_busy_exact : forall unz st now i ip t,
+  unz (hfp_raw st i) = Some ip -> route st now ip = Some t -> (t < length st)%nat ->
+  u_conn (getu st t) = CONN_DNS -> p_len (u_out (getu st t)) <> 0%N -> qwf (getu st t) ->
+  let r := handle_full_packet unz st now i in
+  snd r = [] /\
+  qabs (getu (fst r) t) =
+    (if (u_queue_filled (getu st t) <? QLEN)%nat
+     then qabs (getu st t) ++ [firstn (N.to_nat 65536) (hfp_raw st i)] else qabs (getu st t)) /\
+  u_out (getu (fst r) t) = u_out (getu st t).
+Proof. exact forward_into_busy. Qed.
+Print Assumptions C01_forward_into_busy_exact.
+
+(* non-vacuity: on a fresh session a saved packet comes back from the ring unchanged *)
+Example C01_outqueue_roundtrip :
+  let u := user_init 167772162%N in
+  let u2 := fst (get_from_outpacketq (fst (save_to_outpacketq u [90; 1; 2; 3]%N))) in
+  qwf u /\ p_data (u_out u2) = [90; 1; 2; 3]%N /\ p_seqno (u_out u2) = 1%N /\ u_queue_filled u2 = O.
+Proof. split; [apply user_init_qwf|]. vm_compute. repeat split; reflexivity. Qed.
